@@ -552,6 +552,124 @@ structure SqlMethod where
 		}
 	}
 	fmt.Fprintf(w, "\n/-- a lost version race of AppendObject surfaces as ErrCASFailure (sql store) and is answered\nInvalidWriteOffset (storage layer) -/\ndef appendCasFailureIsInvalidWriteOffset : Bool := %v\n", casFailInAppend && mapped)
+	if err := c07ExtractOutboxDecisions(x); err != nil {
+		return err
+	}
 	fmt.Fprintln(w, "\nend Pithos.Gen.TxFacts")
+	return nil
+}
+
+// c07ExtractOutboxDecisions: how the storage outbox decides between "queue the write" and "drain and
+// write through" for PutObject, DeleteObject and the bulk DeleteObjects, and what the synchronous
+// branch does. A write must be synchronous as soon as it carries ANY condition.
+func c07ExtractOutboxDecisions(x *ExtractCtx) error {
+	const file = "internal/storage/outbox/outbox.go"
+	f, err := x.ParseFile(file)
+	if err != nil {
+		return err
+	}
+	w := x.Lean
+	fmt.Fprintln(w, `
+/-- The queue-or-write-through decision of one storage-outbox method. -/
+structure OutboxDecision where
+  method : String
+  syncIfConditional : Bool   -- the "must be synchronous" flag starts as / is raised to true whenever the request (ANY entry of it) is conditional
+  monotone : Bool            -- every other assignment to the flag happens only while it is false
+  drains : Bool              -- the synchronous branch first waits for the pending entries of the key (bulk: of the bucket)
+  writesThrough : Bool       -- … and then hands the ORIGINAL options / entries to the inner storage
+  deriving DecidableEq, Repr
+`)
+	type spec struct{ method, flag, init, drain, inner string }
+	specs := []spec{
+		{"PutObject", "putMustBeSynchronous", "opts != nil && (opts.IfNoneMatchStar || opts.IfMatchETag != nil)",
+			"os.waitForAllOutboxEntriesOfBucketAndKeyIncludingGlobal(ctx, bucketName, key)", "os.innerStorage.PutObject(ctx, bucketName, key, contentType, reader, checksumInput, opts)"},
+		{"DeleteObject", "deleteMustBeSynchronous", "opts != nil && opts.IfMatchETag != nil",
+			"os.waitForAllOutboxEntriesOfBucketAndKeyIncludingGlobal(ctx, bucketName, key)", "os.innerStorage.DeleteObject(ctx, bucketName, key, opts)"},
+		{"DeleteObjects", "deleteMustBeSynchronous", "false",
+			"os.waitForAllOutboxEntriesOfBucket(ctx, bucketName)", "os.innerStorage.DeleteObjects(ctx, bucketName, entries)"},
+	}
+	norm := func(n ast.Node) string { return strings.Join(strings.Fields(x.Src(n)), " ") }
+	var lines []string
+	for _, sp := range specs {
+		fd := FindFunc(f, "outboxStorage", sp.method)
+		if fd == nil {
+			return fmt.Errorf("%s: outboxStorage.%s not found", file, sp.method)
+		}
+		x.Note("outbox."+sp.method, fd)
+		initOK, raised, monotone, drains, through := false, sp.method != "DeleteObjects", true, false, false
+		var walk func(stmts []ast.Stmt, underNotFlag bool, inLoop bool)
+		walk = func(stmts []ast.Stmt, underNotFlag bool, inLoop bool) {
+			for _, st := range stmts {
+				switch v := st.(type) {
+				case *ast.AssignStmt:
+					if len(v.Lhs) == 1 && norm(v.Lhs[0]) == sp.flag {
+						rhs := norm(v.Rhs[0])
+						switch {
+						case v.Tok == token.DEFINE:
+							initOK = rhs == sp.init
+						case underNotFlag:
+							// only reached while the flag is false: cannot lower it
+						default:
+							monotone = false
+						}
+					}
+				case *ast.RangeStmt:
+					if norm(v.X) == "entries" && sp.method == "DeleteObjects" {
+						// the loop must be: if entry.IfMatchETag != nil { flag = true [; break] }
+						ok := len(v.Body.List) == 1
+						if ok {
+							is, isIf := v.Body.List[0].(*ast.IfStmt)
+							ok = isIf && is.Else == nil && norm(is.Cond) == norm(v.Value)+".IfMatchETag != nil" && len(is.Body.List) >= 1
+							if ok {
+								as, isAs := is.Body.List[0].(*ast.AssignStmt)
+								ok = isAs && as.Tok == token.ASSIGN && norm(as.Lhs[0]) == sp.flag && norm(as.Rhs[0]) == "true"
+								for _, rest := range is.Body.List[1:] {
+									if b, isBr := rest.(*ast.BranchStmt); !isBr || b.Tok != token.BREAK {
+										ok = false
+									}
+								}
+							}
+						}
+						if ok {
+							raised = true
+						} else {
+							// any other shape that touches the flag inside the loop is not recognised
+							ast.Inspect(v.Body, func(n ast.Node) bool {
+								if as, isAs := n.(*ast.AssignStmt); isAs && len(as.Lhs) == 1 && norm(as.Lhs[0]) == sp.flag {
+									monotone = false
+								}
+								return true
+							})
+						}
+					} else {
+						walk(v.Body.List, underNotFlag, true)
+					}
+				case *ast.IfStmt:
+					cond := norm(v.Cond)
+					if cond == sp.flag {
+						// the synchronous branch
+						if len(v.Body.List) >= 2 {
+							first := norm(v.Body.List[0])
+							last := norm(v.Body.List[len(v.Body.List)-1])
+							drains = strings.Contains(first, sp.drain)
+							through = last == "return "+sp.inner
+						}
+						continue
+					}
+					walk(v.Body.List, underNotFlag || cond == "!"+sp.flag, inLoop)
+					if v.Else != nil {
+						walk([]ast.Stmt{v.Else}, underNotFlag, inLoop)
+					}
+				case *ast.BlockStmt:
+					walk(v.List, underNotFlag, inLoop)
+				}
+			}
+		}
+		walk(fd.Body.List, false, false)
+		lines = append(lines, fmt.Sprintf("  ⟨%s, %v, %v, %v, %v⟩", LeanStr(sp.method), initOK && raised, monotone, drains, through))
+	}
+	fmt.Fprintln(w, "def outboxDecisions : List OutboxDecision := [")
+	fmt.Fprintln(w, strings.Join(lines, ",\n"))
+	fmt.Fprintln(w, "]")
 	return nil
 }
